@@ -22,7 +22,7 @@ type qb struct {
 }
 
 func (b *qb) Message() []byte { return b.msg }
-func (b *qb) Finished()      { *b.finished = append(*b.finished, b.uid) }
+func (b *qb) Finished()       { *b.finished = append(*b.finished, b.uid) }
 
 type qbNamed struct{ qb }
 
